@@ -364,6 +364,8 @@ public:
       return false;
     const char* p = *this;
     for(; *p == '0'; ++p);
+    if(!*p) // "00", "000", ...
+      return false;
     if(*p == '.')
     {
       for(++p; *p == '0'; ++p);
